@@ -33,6 +33,15 @@ them wins such a token is not stated, so the report sentences are demanded in th
 depend on it: a listed original occurred literally in some input (or is the system's name), and what
 the output shows in the place of an original derives from it by listed pairs alone (the whole original,
 or the keywords inside it, replaced by what they are listed with).
+
+Round 6: the reports are judged as they stand on disk (facts file parsed from the file after every step, CSV files
+after the run), and sub-check `runs` is a history of 2-3 (thorough 2-5) collection runs of one system in one process
+and one directory - a Cleaner of its own per run, the facts file at its fixed path, CSV reports named after an archive
+name that mostly repeats - each run judged by itself exactly like a single run (state that survives a run, in the
+process or in the file system, must not show in what the next run hands to the user).  Sub-check `bigfile` gives the
+input-size dimension to clean_file: constant filler lines in front of the generated lines so that a size at which
+block-wise / buffered readers cut a file (4 KiB ... 2 MiB) lies inside, or at an edge of, the first address / host
+name / MAC of the first line, which stands once more at the end of the file.
 """
 import hashlib
 import json
@@ -73,7 +82,20 @@ RULE = ("stateful: one Cleaner (IPv4, hostname, MAC on; 0-3 keywords) per case, 
         "of its addresses in 10.230.230.0/24, numbered from .1 upwards; host pools also hold other letter-case "
         "spellings of an earlier host (LABEL / Label / lAbEl / laBEL of the first labels, ALL, DOMAIN, Domain). "
         "Sub-check specfiles: 1-8 (thorough 1-16) operations, 3 in 4 a named table spec (connection table local+peer "
-        "[+host/MAC], one-column list, mixed rows) cleaned by clean_file or the provider, the rest clean_content calls.")
+        "[+host/MAC], one-column list, mixed rows) cleaned by clean_file or the provider, the rest clean_content calls. "
+        "Round 6: sub-check runs = 2-3 (thorough 2-5) collection runs of one system, each 1-5 (thorough 1-10) small "
+        "operations through a Cleaner of its own, all in one process and one directory (facts file at one fixed path, "
+        "CSV reports named after one of two archive names, 3 in 4 the same); every run is judged by itself with the "
+        "oracle of sub-check history, the facts file and the CSV reports being read back from disk; non-trivial: some "
+        "report file was rewritten shorter than the one an earlier run had left at that path. Sub-check bigfile = a "
+        "history of 0-2 small operations, then a clean_file operation (quick 1, thorough 1-3 of them) whose 2-4 generated "
+        "lines are preceded by constant 256-character filler lines such that character offset B in {4 KiB, 8 KiB, 64 KiB, "
+        "192 KiB, 128 KiB, 1 MiB, 1 MiB + 64 KiB, 2 MiB} lies 0-40 (mod token length + 1) characters into the first IPv4 "
+        "/ host name / MAC of the first line (one file in three with B < 512 KiB: the filler is no lines of its own but "
+        "the beginning of that first line, one long line below the documented MAX_LINE_LENGTH); that line is repeated "
+        "as the last line of the file; pools cut to 2-5 "
+        "originals per class so that the token recurs in the small operations too; oracle of sub-check history plus: "
+        "the filler lines come back unchanged.")
 ASSUMPTIONS = [
     "PYTHONHASHSEED is pinned by the runner; in sub-check history tokens of different classes never overlap "
     "textually, so the order in which the obfuscators run cannot matter there; sub-check compete makes keywords "
@@ -95,6 +117,12 @@ ASSUMPTIONS = [
     "whether DB1.corp.test and db1.corp.test may share a substitute is left open)",
     "width mode (documented for file names ending in netstat_-neopa) only moves blanks behind an address: on a table "
     "row (>= 8 blanks per token behind every token, growth <= 7 per address) the tokens are read back as everywhere else",
+    "runs: 'the mapping produced for the user' of a run is what the run's Cleaner leaves behind - mapping(), the facts "
+    "file and the <archive>-*.csv files as they stand on disk once the run has written them; a facts file that is not "
+    "a JSON document pairs nothing with anything and is reported; nothing is demanded across runs (whether two runs "
+    "give an original the same substitute is not stated)",
+    "bigfile: filler lines (ASCII over the filler alphabet, 256 characters, no token in them) are not touched by any "
+    "obfuscator, as the filler inside a line is not (same read-back assumption as the per-line template)",
 ]
 EXCLUDED = [
     "system short names that are substrings of text an obfuscator emits or of another class's "
@@ -266,6 +294,11 @@ def _validate(case):
         # in width mode the blanks behind an address are moved: only table rows can be read back
         assert op.get("rows") or not op_target(op, step)[1], op
         assert not (op.get("rows") and case.get("compete")), op
+        if op.get("bulk"):
+            assert op["op"] == "file" and op["bulk"]["boundary"] in BOUNDARIES and op["bulk"]["cut"] >= 0, op["bulk"]
+            assert op["lines"][0]["toks"][0][0] in ("ip", "host", "mac"), op["lines"][0]
+            # (a line longer than MAX_LINE_LENGTH = 1 MiB is documented to be cut there)
+            assert not op["bulk"].get("one_line") or op["bulk"]["boundary"] < 2 ** 19, op["bulk"]
         for ln in op["lines"]:
             assert FILLER_OK.match(ln["pre"]) and all(FILLER_OK.match(t[4]) for t in ln["toks"]), ln
             assert all(t[0] in CLASSES and pools[t[0]] for t in ln["toks"]), ln
@@ -329,8 +362,19 @@ def explained(orig, shown, pairs, kwpairs=()):
 # ---- the check -----------------------------------------------------------------------------------
 
 def check_history(case):
-    from insights.cleaner import Cleaner
+    """one collection run in a directory of its own"""
     _validate(case)
+    tmp = tempfile.mkdtemp(prefix="c09-")
+    try:
+        return _history_run(case, tmp, "c09")
+    finally:
+        shutil.rmtree(tmp, ignore_errors=True)
+
+
+def _history_run(case, tmp, archive):
+    """one collection run: a fresh Cleaner, the operations of the history, the reports written into `tmp` (facts
+    file tmp/facts.json after every step, the CSV reports tmp/<archive>-*.csv at the end) and read back from there"""
+    from insights.cleaner import Cleaner
     pools = case["pools"]
     fqdn = case["fqdn"]
     short = fqdn.split(".")[0]
@@ -339,9 +383,8 @@ def check_history(case):
     def canon(cls, orig):
         return fqdn if (cls == "host" and orig == short) else orig
 
-    tmp = tempfile.mkdtemp(prefix="c09-")
     labels = set()
-    try:
+    if True:     # (the directory belongs to the caller: check_history / check_runs)
         cfg = SimpleNamespace(obfuscate=True, obfuscate_hostname=True, obfuscate_ipv6=False,
                               obfuscate_mac=True, rhsm_facts_file=os.path.join(tmp, "facts.json"))
         rm_conf = {"keywords": list(pools["kw"])} if pools["kw"] else {}
@@ -375,7 +418,10 @@ def check_history(case):
                 rendered, texts = rendered[:1], texts[:1]
             raised = None
             try:
-                outs = _run_op(cleaner, tmp, kind, rel, texts, op["no_obf"], step)
+                outs = _run_op(cleaner, tmp, kind, rel, texts, op["no_obf"], step,
+                               bulk_text(op["bulk"], texts[0], rendered[0][2][0][1]) if op.get("bulk") else "")
+                if op.get("bulk"):
+                    labels.update(_bulk_labels(op["bulk"], rendered[0][2][0]))
             except Violation:
                 raise
             except Exception as exc:  # noqa
@@ -463,7 +509,7 @@ def check_history(case):
             else:
                 _check_report(cleaner, cfg.rhsm_facts_file, fqdn, seen, occurred, canon, step)
 
-        _check_csv(cleaner, tmp)
+        _check_csv(cleaner, tmp, archive)
         recurs = any(len(s) >= 2 for s in steps_of.values())
         if recurs:
             labels.add("original-recurs-in-2-specs")
@@ -492,11 +538,48 @@ def check_history(case):
             labels.add("keywords-derived=%d" % sum(1 for k in pools["kw"] if not re.match(r"\A[Q-Z]{4}\Z", k)))
             return {"nontrivial": competing, "labels": sorted(labels)}
         return {"nontrivial": bool(recurs and shared_line), "labels": sorted(labels)}
-    finally:
-        shutil.rmtree(tmp, ignore_errors=True)
 
 
-def _run_op(cleaner, tmp, kind, rel, texts, no_obf, step):
+# ---- big files (round 6): constant filler lines in front of the lines of a file operation ----------------
+
+# sizes at which a reader that works block by block / buffer by buffer would cut a file (characters; the filler is
+# ASCII): io.DEFAULT_BUFFER_SIZE (8 KiB) and its neighbours, 64 KiB, 128 KiB, the cleaner's own MAX_LINE_LENGTH
+# (1 MiB) and multiples of these
+BOUNDARIES = [2 ** 12, 2 ** 13, 2 ** 16, 3 * 2 ** 16, 2 ** 17, 2 ** 20, 2 ** 20 + 2 ** 16, 2 ** 21]
+BULK_LINE = ("GHK LMNOP (MN) ;; " * 15)[:255] + "\n"      # 256 characters of filler no obfuscator reads
+
+
+def bulk_text(bulk, first_text, first_tok):
+    """filler lines (constant, nothing to clean in them) of such a total length that the character offset
+    bulk['boundary'] of the file lies `cut` characters into the first token of the first generated line
+    (cut = 0 / len(token): the boundary lies exactly at the token's edge)"""
+    pos = first_text.index(first_tok)
+    cut = bulk["cut"] % (len(first_tok) + 1)
+    need = bulk["boundary"] - pos - cut
+    if bulk.get("one_line"):
+        # the filler stands on the first line itself (one long line, shorter than the documented MAX_LINE_LENGTH)
+        text = (BULK_LINE[:-1] * (need // (len(BULK_LINE) - 1) + 1))[:need - 1] + " "
+        assert len(text) == need and (text + first_text)[bulk["boundary"] - cut:].startswith(first_tok)
+        return text
+    n, rest = divmod(need, len(BULK_LINE))
+    if rest < 2:                # (no blank line)
+        n, rest = n - 1, rest + len(BULK_LINE)
+    text = BULK_LINE * n + "G" * (rest - 1) + "\n"
+    assert n >= 0 and len(text) == need and (text + first_text)[bulk["boundary"] - cut:].startswith(first_tok)
+    return text
+
+
+def _bulk_labels(bulk, first):
+    cls, tok = first
+    cut = bulk["cut"] % (len(tok) + 1)
+    size = bulk["boundary"]
+    return ["file-size>=%s" % ("1MiB" if size >= 2 ** 20 else "64KiB" if size >= 2 ** 16 else "4KiB"),
+            "filler-is-one-long-line" if bulk.get("one_line") else "filler-is-many-lines",
+            "boundary-%s-%s" % ("inside" if 0 < cut < len(tok) else "at-edge-of", cls),
+            "boundary=%d" % size]
+
+
+def _run_op(cleaner, tmp, kind, rel, texts, no_obf, step, bulk=""):
     """one cleaning operation of the history -> list of output lines"""
     kw = {"no_obfuscate": list(no_obf)} if no_obf else {}
     if kind == "str":
@@ -512,11 +595,17 @@ def _run_op(cleaner, tmp, kind, rel, texts, no_obf, step):
         if not os.path.isdir(os.path.dirname(path)):
             os.makedirs(os.path.dirname(path))
         with open(path, "w") as fh:
-            fh.write("".join(t + "\n" for t in texts))
+            fh.write(bulk + "".join(t + "\n" for t in texts))
         try:
             cleaner.clean_file(path, **kw)
             with open(path) as fh:
-                return fh.read().split("\n")[:-1]
+                got = fh.read()
+            if not got.startswith(bulk):
+                at = next((i for i, (a, b) in enumerate(zip(got, bulk)) if a != b), min(len(got), len(bulk)))
+                raise Violation("the filler lines of a big file (nothing to clean in them) did not come back as they "
+                                "were", step=step, name=rel, offset=at, expected=bulk[max(at - 40, 0):at + 40],
+                                got=got[max(at - 40, 0):at + 40])
+            return got[len(bulk):].split("\n")[:-1]
         finally:
             os.remove(path)
     # a spec written into the archive by its content provider during collection
@@ -571,7 +660,13 @@ def _mappings(cleaner, facts_file, fqdn, step):
     """-> {class: mapping()} after checking that the facts file carries exactly the same pairs"""
     cleaner.generate_rhsm_facts()
     with open(facts_file) as fh:
-        facts = json.load(fh)
+        raw = fh.read()
+    try:
+        facts = json.loads(raw)
+        assert isinstance(facts, dict)
+    except Exception as exc:  # noqa
+        raise Violation("report: the facts file written by generate_rhsm_facts() is not a JSON document (%s)" % exc,
+                        step=step, head=raw[:120], tail=raw[-200:])
     if facts.get("insights_client.hostname") != fqdn:
         raise Violation("facts file names %r as the system, not %r" % (facts.get("insights_client.hostname"), fqdn))
     out = {}
@@ -662,12 +757,13 @@ def _check_report(cleaner, facts_file, fqdn, seen, occurred, canon, step):
                                 % (cls, orig, sorted(subs), seen[cls][orig]), step=step, mapping=listed)
 
 
-def _check_csv(cleaner, tmp):
-    """the CSV reports of generate_report() carry the same pairs as mapping() (IPv4, host, MAC)"""
+def _check_csv(cleaner, tmp, archive="c09"):
+    """the CSV reports of generate_report(), read back from the files, carry the same pairs as mapping() (IPv4,
+    host, MAC) - which _check_report has just compared with what this run's output shows"""
     cleaner.report_dir = tmp
-    cleaner.generate_report("c09")
+    cleaner.generate_report(archive)
     for cls, suffix in (("ip", "ip"), ("host", "hostname"), ("mac", "mac")):
-        with open(os.path.join(tmp, "c09-%s.csv" % suffix)) as fh:
+        with open(os.path.join(tmp, "%s-%s.csv" % (archive, suffix))) as fh:
             rows = [ln.rstrip("\n").split(",") for ln in fh][1:]
         want = sorted([e["obfuscated"], e["original"]] for e in cleaner.obfuscate[OBF_NAME[cls]].mapping())
         if sorted(rows) != want:
@@ -981,6 +1077,112 @@ def strat_compete(tier):
     return _compete_history(8 if tier == "quick" else 16)
 
 
+def _small_op(draw, classes):
+    kind = draw(st.sampled_from(["list", "list", "str", "file", "write"]))
+    op = {"op": kind, "no_obf": [], "lines": [draw(_line(classes)) for _ in range(1 if kind == "str" else draw(st.integers(1, 3)))]}
+    if kind in ("file", "write"):
+        _name_op(draw, op)
+    return op
+
+
+@st.composite
+def _bigfile_history(draw, max_files):
+    """a run in which some of the files are big: in front of the generated lines of a clean_file operation stand
+    constant filler lines, so many that a size at which block-wise / buffered readers cut a file (BOUNDARIES) lies
+    inside (or exactly at an edge of) the first address / host name / MAC of the first line; the same line stands
+    once more at the end of the file, and the small operations around it draw from the same (small) pools"""
+    case = draw(_pools())
+    pools = case["pools"]
+    for c in ("ip", "host", "mac"):
+        del pools[c][max(draw(st.integers(2, 5)), 2 if c != "host" else 3):]
+    weights = ["ip"] * 3 + ["host"] * 3 + ["mac"] * 2 + (["kw"] if pools["kw"] else [])
+    classes = st.sampled_from(weights)
+    ops = [_small_op(draw, classes) for _ in range(draw(st.integers(0, 2)))]
+    for _ in range(draw(st.integers(1, max_files))):
+        first = draw(_line(st.sampled_from(["ip", "ip", "host", "host", "mac"])))
+        lines = [first] + [draw(_line(classes)) for _ in range(draw(st.integers(0, 2)))] + [first]
+        op = {"op": "file", "no_obf": [], "lines": lines,
+              "bulk": {"boundary": draw(st.sampled_from(BOUNDARIES)), "cut": draw(st.integers(0, 40))}}
+        if op["bulk"]["boundary"] < 2 ** 19 and draw(st.integers(0, 2)) == 0:
+            op["bulk"]["one_line"] = True
+        _name_op(draw, op)
+        ops.append(op)
+        ops.extend(_small_op(draw, classes) for _ in range(draw(st.integers(0, 1))))
+    case["ops"] = ops
+    return case
+
+
+def strat_bigfile(tier):
+    return _bigfile_history(1 if tier == "quick" else 3)
+
+
+# ---- several collection runs that find each other's reports (round 6) ---------------------------------------
+
+ARCHIVES = ["insights-c09-archive", "insights-c09-20260926101500"]
+
+
+def check_runs(case):
+    """a system is collected from again and again: every run has a Cleaner of its own (same process), the facts
+    file has a fixed path and the CSV reports are named after the archive, so a run may find the files an earlier
+    run wrote (always the facts file; the CSV files when the archive name repeats).  Every run is judged by itself,
+    exactly as a single run is (check_history): what it hands to the user - mapping(), the facts file and the CSV
+    files *as they stand on disk* after the run wrote them - pairs the originals of THIS run with the substitutes
+    of THIS run's output and lists nothing that occurred neither in this run's content nor as the system's name.
+    (Nothing is demanded across runs: the statement speaks of one collection run.)"""
+    for run in case["runs"]:
+        _validate(dict(case, ops=run["ops"]))
+    tmp = tempfile.mkdtemp(prefix="c09-")
+    labels = set()
+    inner = False
+    shorter = False
+    try:
+        for r, run in enumerate(case["runs"]):
+            archive = ARCHIVES[run["archive"] % len(ARCHIVES)]
+            before = dict((f, os.path.getsize(os.path.join(tmp, f))) for f in os.listdir(tmp)
+                          if os.path.isfile(os.path.join(tmp, f)))
+            try:
+                res = _history_run(dict(case, ops=run["ops"]), tmp, archive)
+            except Violation as v:
+                if r == 0:
+                    raise
+                raise Violation("run %d of a system whose earlier run(s) left their reports in the same directory: %s"
+                                % (r + 1, v.msg), run=r, files_found=before, **v.details)
+            inner = inner or res["nontrivial"]
+            labels.update(l for l in res["labels"] if l.startswith("op=") or l.startswith("excluded:"))
+            for f, size in sorted(before.items()):
+                now = os.path.getsize(os.path.join(tmp, f))
+                kind = "facts-file" if f == "facts.json" else "csv-report"
+                if f != "facts.json" and not f.startswith(archive + "-"):
+                    labels.add("csv-report-of-an-earlier-archive-left-alone")
+                    continue
+                labels.add("%s-rewritten-%s" % (kind, "shorter" if now < size else "longer" if now > size else "same-size"))
+                shorter = shorter or now < size
+        labels.add("runs=%d" % len(case["runs"]))
+        if len(set(run["archive"] % len(ARCHIVES) for run in case["runs"])) < len(case["runs"]):
+            labels.add("archive-name-repeats")
+        return {"nontrivial": len(case["runs"]) >= 2 and shorter, "labels": sorted(labels)}
+    finally:
+        shutil.rmtree(tmp, ignore_errors=True)
+
+
+@st.composite
+def _runs(draw, max_runs, max_ops):
+    case = draw(_pools())
+    weights = ["ip"] * 3 + ["host"] * 3 + ["mac"] * 2 + (["kw"] if case["pools"]["kw"] else [])
+    classes = st.one_of(st.sampled_from(weights), st.just("ip"), st.just("host"))
+    runs = []
+    for _ in range(draw(st.integers(2, max_runs))):
+        # (runs of very different length: a machine whose logs were busy yesterday and quiet today)
+        n = draw(st.one_of(st.integers(1, 2), st.integers(1, max_ops)))
+        runs.append({"archive": draw(st.sampled_from([0, 0, 0, 1])), "ops": [_small_op(draw, classes) for _ in range(n)]})
+    case["runs"] = runs
+    return case
+
+
+def strat_runs(tier):
+    return _runs(3, 5) if tier == "quick" else _runs(5, 10)
+
+
 # ---- self-test of the harness' own read-back ---------------------------------------------------------
 
 def selftest():
@@ -1022,6 +1224,17 @@ def selftest():
     assert not width_hazard(ips("10.230.230.1", "10.230.230.1", "9.9.9.9"), {"10.230.230.1": "10.230.230.1", "9.9.9.9": "10.230.230.2"})
     assert width_hazard(ips("127.0.0.1", "27.0.0.1"), {"27.0.0.1": "10.230.230.1"})
     assert not width_hazard(ips("127.0.0.1", "127.0.0.1", "8.8.8.8"), {"8.8.8.8": "10.230.230.1"})
+    # big files: the boundary lies `cut` characters into the first token, whatever stands before it on the line
+    for boundary in BOUNDARIES[:3]:
+        for cut, tok, line in [(0, "1.2.3.4", "G IP=1.2.3.4 HOP"), (3, "1.2.3.4", "1.2.3.4"), (7, "1.2.3.4", " (MN) 1.2.3.4,"),
+                               (48, "aa:bb:cc:dd:ee:ff", "LINK/ aa:bb:cc:dd:ee:ff")]:
+            b = bulk_text({"boundary": boundary, "cut": cut}, line, tok)
+            c = cut % (len(tok) + 1)
+            assert (b + line)[boundary - c:boundary - c + len(tok)] == tok and b.endswith("\n") and "\n\n" not in b
+            assert FILLER_OK.match(b.replace("\n", "")) and max(len(x) for x in b.split("\n")) < 2 * len(BULK_LINE)
+            b = bulk_text({"boundary": boundary, "cut": cut, "one_line": True}, line, tok)
+            assert (b + line)[boundary - c:boundary - c + len(tok)] == tok and b.endswith(" ") and "\n" not in b
+            assert FILLER_OK.match(b)
     for name, bad in [("host", True), ("ost2", True), ("t12", True), ("com", True), ("xam", True), ("key", True),
                       ("d0", True), ("ab", True), ("a-b", True), ("12", True), ("web01", False), ("db", True), ("dbz", False),
                       ("hostz", False), ("node", False), ("_srv", False), ("x1", False), ("keys", False)]:
@@ -1108,12 +1321,16 @@ def strat_sysname(tier):
 
 SUBS = [
     Sub("sysname", check_sysname, strategy=strat_sysname, quick=100, thorough=1000, workers_quick=2, workers_thorough=4),
-    Sub("history", check_history, strategy=strat_history, quick=470, thorough=3500, workers_quick=4,
-        workers_thorough=16, budget_quick=36, budget_thorough=420),
-    Sub("specfiles", check_history, strategy=strat_specfiles, quick=150, thorough=1500, workers_quick=4,
-        workers_thorough=16, budget_quick=12, budget_thorough=120),
-    Sub("compete", check_history, strategy=strat_compete, quick=160, thorough=1500, workers_quick=4,
-        workers_thorough=16, budget_quick=12, budget_thorough=120),
+    Sub("history", check_history, strategy=strat_history, quick=400, thorough=3500, workers_quick=4,
+        workers_thorough=16, budget_quick=30, budget_thorough=400),
+    Sub("specfiles", check_history, strategy=strat_specfiles, quick=130, thorough=1500, workers_quick=4,
+        workers_thorough=16, budget_quick=10, budget_thorough=110),
+    Sub("compete", check_history, strategy=strat_compete, quick=140, thorough=1500, workers_quick=4,
+        workers_thorough=16, budget_quick=10, budget_thorough=110),
+    Sub("runs", check_runs, strategy=strat_runs, quick=40, thorough=600, workers_quick=4,
+        workers_thorough=16, budget_quick=5, budget_thorough=60),
+    Sub("bigfile", check_history, strategy=strat_bigfile, quick=12, thorough=150, workers_quick=4,
+        workers_thorough=16, budget_quick=6, budget_thorough=60),
 ]
 
 
